@@ -6,6 +6,7 @@
 //! checker for the short call/return histories the harness bodies record.
 
 pub mod coord;
+pub mod crashhook;
 pub mod explore;
 pub mod interpose;
 pub mod lin;
